@@ -102,6 +102,8 @@ func (o Op) String() string {
 		return fmt.Sprintf("Handle*(%s,[%s])", strings.Join(o.Ps, " "), qjoin(o.Ms))
 	case "reject":
 		return fmt.Sprintf("rejected-Handle(%q,[%s])", o.P, qjoin(o.Ms))
+	case "use":
+		return "Use(A)"
 	}
 	return o.K
 }
@@ -146,6 +148,8 @@ func ApplyImpl(r *Router, o Op) (any, bool) {
 			for _, p := range o.Ps {
 				r.Handle(p, hv.Route(HID(p, o.Ms)), nil, o.Ms...)
 			}
+		case "use":
+			r.Use(hv.MW{Name: "A"})
 		case "reject":
 			// a call the model rejects: its panic is the documented outcome and is swallowed here;
 			// the state it leaves behind is what the exploration continues from.
@@ -208,6 +212,8 @@ func ApplyModel(t *ref.Table, o Op) {
 		t.Clean(o.P)
 	case "rclean":
 		t.Remove(o.P)
+	case "use":
+		t.Uses++
 	}
 }
 
